@@ -4,7 +4,9 @@
 //!   verif-harness --replay <file>
 
 mod core;
+mod dev488;
 mod lockstep;
+mod scpimodel;
 mod props;
 mod rig;
 
@@ -33,6 +35,9 @@ fn main() {
     let ctx: &'static Ctx = Box::leak(Box::new(Ctx::new(id, tier)));
     let code = match id {
         "C12" => props::c12::run(ctx),
+        "C13" => props::c13::run(ctx),
+        "C15" => props::c15::run(ctx),
+        "C16" => props::c16::run(ctx),
         _ => {
             eprintln!("unknown property {id}");
             2
@@ -51,6 +56,9 @@ fn replay_file(path: &str) -> i32 {
     let run = |case: &serde_json::Value| -> Result<String, String> {
         match id.as_str() {
             "C12" => props::c12::replay(case).map_err(|m| format!("{}: {}", m.key, m.what)),
+            "C13" => props::c13::replay(case).map_err(|m| format!("{}: {}", m.key, m.what)),
+            "C15" => props::c15::replay(case).map_err(|m| format!("{}: {}", m.key, m.what)),
+            "C16" => props::c16::replay(case).map_err(|m| format!("{}: {}", m.key, m.what)),
             _ => engine_failure("unknown property in replay file"),
         }
     };
